@@ -243,7 +243,10 @@ def logical_records(model):
     prlen = model['phys']['prlen']
     ref = []          # one entry per log pass, in the order of their DFSRs in the file
     for fi, f in enumerate(model['files']):
-        recs.append((('file-head', fi), file_head_tail(128, f['name'], '' if fi == 0 else model['files'][fi - 1]['name'], min(prlen, 99999))))
+        # 'continues': no file header in front of this log pass and no trailer behind the previous one: a second format
+        # specification with its own data records inside the same logical file (a repeat section after the main pass)
+        if not f.get('continues'):
+            recs.append((('file-head', fi), file_head_tail(128, f['name'], '' if fi == 0 else model['files'][fi - 1]['name'], min(prlen, 99999))))
         for ti, tab in enumerate(f['tables']):
             recs.append((('table', fi, tab['name']), table_record(tab)))
         plist = [('main', f)] + ([('alt', f['alt'])] if f.get('alt') else [])
@@ -267,7 +270,8 @@ def logical_records(model):
         for which, pd in plist:
             assert cursors[which] == [len(pd['per_record']), len(pd['frames'])], 'order does not consume every data record'
             ref.append(pref[which])
-        if model['post']:
+        nxt_continues = fi + 1 < len(model['files']) and model['files'][fi + 1].get('continues')
+        if model['post'] and not nxt_continues:
             recs.append((('file-tail', fi), file_head_tail(129, f['name'], '', min(prlen, 99999))))
     if model['post']:
         if 'tape' in model['pre']:
@@ -380,7 +384,7 @@ def x_of_frame(f, k):
 
 
 # ------------------------------------------------------------------------------------------------
-MNEMS = ['DEPT', 'TIME', 'GR  ', 'CALI', 'TENS', 'RHOB', 'NPHI', 'SP  ', 'ILD ', 'SFLU', 'DT  ', 'WF1 ']
+MNEMS = ['DEPT', 'TIME', 'GR  ', 'CALI', 'TENS', 'RHOB', 'NPHI', 'SP  ', 'ILD ', 'SFLU', 'DT  ', 'WF1 ', '  GR', ' SP ']
 TABLES = ['CONS', 'TOOL', 'PRES', 'FILM', 'AREA', 'WARN', 'XYZ ']
 
 
@@ -484,7 +488,8 @@ def make_huge(f, target_bytes=6_900_000):
     f.pop('alt', None)
 
 
-def gen_model(rng, max_frames=40, names_pool=None, max_files=2, small_pr=False, allow_alt=False, huge=False, tif_pad=False, tape_marks=False):
+def gen_model(rng, max_frames=40, names_pool=None, max_files=2, small_pr=False, allow_alt=False, huge=False, tif_pad=False, tape_marks=False,
+              same_file_passes=False):
     rec = rng.chance(0.25)
     filen = rng.pick([None, None, None, 1, 7])
     chk = rng.chance(0.2)
@@ -505,6 +510,14 @@ def gen_model(rng, max_frames=40, names_pool=None, max_files=2, small_pr=False, 
         prlen = rng.pick([1024, 1024, 4096, 8192, 65535])
     model = {'phys': {'prlen': prlen, 'rec': rec, 'file': filen, 'chk': chk, 'tif': tif, 'chunk_seed': rng.getrandbits(32) if rng.chance(0.3) and not huge else None},
              'pre': pre, 'post': rng.chance(0.7), 'files': _gen_files(rng, 2 if parity_shape else nfiles, max_frames, names_pool, allow_alt, parity_shape)}
+    if same_file_passes and not huge:
+        if len(model['files']) < 2:
+            model['files'] += _gen_files(rng, 1, min(max_frames, 12), names_pool, False)
+        for f_ in model['files'][1:]:
+            f_['continues'] = True
+            f_['tables'] = f_['tables'] if rng.chance(0.5) else []
+            f_.pop('alt', None)
+        model['files'][0].pop('alt', None)
     if huge:
         make_huge(model['files'][0])
     if tape_marks:
